@@ -166,6 +166,61 @@ def _arm_blocks(fn, branch, succ):
     return fn.reach_from([succ], avoid=pd)
 
 
+def selector_table(rep, u, fname="sha2_init"):
+    """The SHA-2 family is selected by a number that may be the digest length in bits or in bytes; the HMAC code
+    re-initialises the context between the passes with the *stored* byte size.  For every arm of the switch: the labels
+    that reach it contain both the byte size the arm stores and eight times it, the block size is the variant's (64 up to
+    256 bits, 128 above) and the IV copied is the table named after that bit length."""
+    fn = u.fn(fname)
+    if fn is None or not fn.has_cfg:
+        return 0
+    rep.functions.add(fname)
+    sw = [bid for bid, b in fn.blocks.items() if b.term and b.term.get("k") == "SwitchStmt" and bid in fn.reachable_blocks()]
+    if len(sw) != 1:
+        raise driver.AnalysisBroken("%s: selector switch not found" % fname)
+    labels = {}     # block -> set of case values that reach it by falling through label-only blocks
+    for s_ in fn.blocks[sw[0]].rsucc():
+        lab = fn.blocks[s_].label
+        if not lab or "case" not in lab:
+            continue
+        b = s_
+        while not fn.blocks[b].elems and len(fn.blocks[b].rsucc()) == 1:
+            b = fn.blocks[b].rsucc()[0]
+        labels.setdefault(b, set()).add(int(lab["case"]))
+    n = 0
+    for b, ls in sorted(labels.items(), reverse=True):
+        hs = bs = iv = None
+        for e in fn.blocks[b].elems:
+            for x, ps in walk(e):
+                if x.get("k") == "bin" and x["op"] == "=" and key(x["x"]).endswith("->hash_size"):
+                    hs = const_val(x["y"])
+                if x.get("k") == "bin" and x["op"] == "=" and key(x["x"]).endswith("->block_size"):
+                    bs = const_val(x["y"])
+                if x.get("k") == "call" and x.get("fn") == "memcpy":
+                    iv = (key(core.strip_casts(x["args"][1])), const_val(x["args"][2]))
+        n += 1
+        inst = "selector:%s" % (hs if hs is not None else sorted(ls))
+        desc = "%s: the arm that stores digest size %s is selected by %s and by %s, with the variant's block size and IV" % (
+            fname, hs, hs, None if hs is None else hs * 8)
+        bad = []
+        if hs is None or bs is None or iv is None:
+            bad.append("arm with labels %s does not store hash_size/block_size/IV" % sorted(ls))
+        else:
+            if hs not in ls:
+                bad.append("the stored byte size %d is not a label of its own arm (labels %s): re-initialising a context with its "
+                           "stored size - as the second HMAC pass does - selects nothing" % (hs, sorted(ls)))
+            if hs * 8 not in ls:
+                bad.append("the bit length %d is not a label of the arm (labels %s)" % (hs * 8, sorted(ls)))
+            if bs != (64 if hs * 8 <= 256 else 128):
+                bad.append("block size %s for a %d-bit digest" % (bs, hs * 8))
+            if str(hs * 8) not in iv[0]:
+                bad.append("IV table %s for a %d-bit digest" % (iv[0], hs * 8))
+            if ls - {hs, hs * 8}:
+                bad.append("extra labels %s" % sorted(ls - {hs, hs * 8}))
+        (rep.violated if bad else rep.proved)("R-TBL", fn, inst, desc, "; ".join(bad) if bad else "labels %s, block %s, IV %s" % (sorted(ls), bs, iv[0]))
+    return n
+
+
 def run(rep, tier):
     specs = hashes.units(tier, extra_gost=False)
     us = driver.load_units([s for (_, _, s) in specs] + [RADIUS])
@@ -195,6 +250,11 @@ def run(rep, tier):
                 if ts_hash.check_hmac_must_final(rep, fn):
                     rep.functions.add(fn.name)
     rep.floor("HMAC pad wipe obligations", n, 16)
+    nsel = 0
+    for (h, lab, s_) in specs:
+        if h == "sha2":
+            nsel = max(nsel, selector_table(rep, us[s_.label]))
+    rep.floor("SHA-2 selector arms", nsel, 4)
     u = us["radius.h"]
     nr = 0
     for fn in u.function_list:
